@@ -269,3 +269,74 @@ def boundAt (r : Relation) (c : Choice) : List (String × List String × List St
 
 end Analysis
 end Mwp
+
+namespace Mwp
+namespace LoopAnalysis
+open Analysis
+
+/-- observable part of a `VResult` -/
+structure VRes where
+  name : String
+  isM : Bool
+  isW : Bool
+  isP : Bool
+  choices : Option Choices.T
+  deriving Repr
+
+def VRes.unbounded (v : String) : VRes := ⟨v, false, false, false, none⟩
+
+/-- `LoopAnalysis.get_result`: the three-rung ladder m / w / p over the column of `v`.
+    AssertionError when no rung yields a choice. -/
+def getResult (rel : Relation) (index : Nat) (v : String) : M VRes := do
+  let cm ← rel.varEval Gen.domain index v [.w, .p]
+  if !Choices.infinite cm then pure ⟨v, true, true, true, some cm⟩
+  else
+    let cw ← rel.varEval Gen.domain index v [.p]
+    if !Choices.infinite cw then pure ⟨v, false, true, true, some cw⟩
+    else
+      let cp ← rel.varEval Gen.domain index v []
+      if !Choices.infinite cp then pure ⟨v, false, false, true, some cp⟩
+      else throw "AssertionError"
+
+/-- `LoopAnalysis.maybe_result`; `pick` is `red.first`, the choice the implementation drew from the
+    intersection of the per-variable choice objects (its position in a hash-ordered set is not
+    modelled; the harness observes it). -/
+def maybeResult (rel : Relation) (index : Nat) (pick : Option (List Nat)) : M (List VRes) := do
+  let flags ← rel.vars.mapM fun v => do
+    let c ← rel.varEval Gen.domain index v
+    pure (v, Choices.infinite c)
+  let fail := (flags.filter (·.2)).map (·.1)
+  let rest := (flags.filter (fun f => !f.2)).map (·.1)
+  let failIdx := fail.filterMap fun v => rel.vars.idxOf? v
+  let failRes := fail.map VRes.unbounded
+  if rest.isEmpty then pure failRes
+  else
+    match pick with
+    | none => throw "AssertionError"     -- `assert not red.infinite`
+    | some ch =>
+      let simple := rel.applyChoice ch
+      let restRes ← rest.mapM fun v => do
+        match rel.vars.idxOf? v with
+        | none => throw "ValueError"
+        | some idx =>
+          let deps := failIdx.map fun fi => (simple.getD fi []).getD idx .o
+          if !deps.isEmpty && deps.all (· == .o) then getResult rel index v
+          else pure (VRes.unbounded v)
+      pure (failRes ++ restRes)
+
+/-- `LoopAnalysis.inspect` up to the point where results per variable are computed:
+    relation, degree, "some variable fails" -/
+def inspectRel (loop : Node) : M (Relation × Nat × Bool) := do
+  let vars ← Syntax.variables loop
+  let (inf, index, rels, _) ← cmds (RelList.identity vars) 0 [loop] false
+  let first := rels.headD (Relation.new [])
+  let c ← first.eval Gen.domain index
+  pure (first, index, inf || Choices.infinite c)
+
+def inspect (loop : Node) (pick : Option (List Nat)) : M (List VRes) := do
+  let (rel, index, infty) ← inspectRel loop
+  if !infty then rel.vars.mapM (getResult rel index)
+  else maybeResult rel index pick
+
+end LoopAnalysis
+end Mwp
